@@ -49,7 +49,7 @@ func (check) Assumptions() []string {
 		"slot bound of a call = max(MaxIdx+1, number of elements (for loaders: bytes) the caller's own data contains); MaxIdx is 1024 unless the case passes ucfg.MaxIdx",
 		"a panic whose innermost non-stdlib frame is in yaml.v2 / hjson-go / encoding/json is reported as decoder-panic:<pkg>, not as a go-ucfg panic",
 		"not generated: cyclic Go values passed to Merge/NewFrom or pre-filled into targets, a Config made its own ancestor through SetChild, user callbacks that panic, nesting deeper than 10000 (the limit encoding/json and yaml.v2 enforce themselves)",
-		"step budget: 4000 reference resolutions per call; the configs read under VarExp have at most a few dozen settings (deep documents hold at most one reference per 1000 levels)",
+		"step budget: 4000 reference resolutions per call (plus 10 per path segment of the name argument); the configs read under VarExp have at most a few dozen settings (deep documents hold at most one reference per 1000 levels)",
 		"the lexer emits its exit event before it closes its channel and parseSplice drains until close, so start==exit after every call is deterministic",
 	}
 }
@@ -160,6 +160,7 @@ type mon struct {
 	maxSteps      int
 	maxGrow       int
 	bound         int // slot bound of the call in flight
+	budget        int // step budget of the call in flight
 
 	before map[string]bool // goroutines inside go-ucfg before the case
 }
@@ -169,6 +170,7 @@ type call struct {
 	entry  string        // entry point
 	class  string        // input class, first part of a panic signature ("" = none)
 	bound  int           // slot bound; 0 = MaxIdx default + 1
+	budget int           // reference resolutions allowed; 0 = stepBudget
 	hasIdx bool          // the entry point got an idx argument
 	idx    int           //
 	desc   func() string // renders the input (only on violation / verbose)
@@ -191,7 +193,7 @@ func newMon(res *harness.R, verbose bool) *mon {
 		case "resolve":
 			// always on the goroutine of the call in flight
 			m.steps++
-			if m.steps > stepBudget {
+			if m.steps > m.budget {
 				panic(budgetAbort{})
 			}
 		case "grow":
@@ -213,6 +215,10 @@ func (m *mon) do(c call, f func()) (st status) {
 		c.bound = defaultMaxIdx + 1
 	}
 	m.bound = c.bound
+	if c.budget <= 0 {
+		c.budget = stepBudget
+	}
+	m.budget = c.budget
 	m.steps = 0
 	s0, e0 := atomic.LoadInt64(&m.starts), atomic.LoadInt64(&m.exits)
 	m.res.Eval(1)
@@ -242,8 +248,8 @@ func (m *mon) do(c call, f func()) (st status) {
 				st = stBudget
 				m.res.Ev("step_budget_aborts", 1)
 				m.res.Violate(pre+"step-budget-exceeded:"+c.entry,
-					"%s performed more than %d reference resolutions in one call (runaway recursion; left alone it ends in a stack overflow or never); the monitor aborted the call; input: %s",
-					c.entry, stepBudget, c.desc())
+					"%s performed more than %d reference resolutions in one call (runaway recursion: left alone it ends in a stack overflow or not at all); the monitor aborted the call; input: %s",
+					c.entry, c.budget, c.desc())
 				return
 			}
 			st = stPanic
